@@ -61,10 +61,25 @@ func Name(prefix string, idx ...int) string {
 	return prefix
 }
 
+// RandomSeed != 0 makes unassigned inputs pseudo-random (deterministic per name and seed).
+var RandomSeed uint64
+
 func lookup(name string) (string, bool) {
 	mu.Lock()
 	defer mu.Unlock()
 	v, ok := assignment[name]
+	if !ok && RandomSeed != 0 {
+		h := RandomSeed*0x9E3779B97F4A7C15 + 0x1234567
+		for i := 0; i < len(name); i++ {
+			h = (h ^ uint64(name[i])) * 0x100000001b3
+		}
+		h ^= h >> 29
+		// small dyadic rationals in [-8, 8): exact in float64; "true"/"false" for booleans is
+		// decided by the caller through parse*, so encode as an integer over 16
+		v = fmt.Sprintf("%d/16", int64(h%256)-128)
+		ok = true
+		assignment[name] = v
+	}
 	return v, ok
 }
 
@@ -98,6 +113,9 @@ func parseInt(v string, bits int) int64 {
 			return int64(int32(u))
 		}
 		return int64(u)
+	}
+	if strings.Contains(v, "/") {
+		return int64(parseFloat(v) * 16)
 	}
 	i, _ := strconv.ParseInt(v, 10, 64)
 	return i
@@ -173,6 +191,9 @@ func Num[T Number](name string, idx ...int) T {
 
 func Bool(name string, idx ...int) bool {
 	v, ok := lookup(Name(name, idx...))
+	if ok && strings.Contains(v, "/") {
+		return parseFloat(v) >= 0
+	}
 	return ok && v == "true"
 }
 
@@ -246,6 +267,18 @@ func KnownFindingEqAt(id, label string, k int, a, b any) { AssertEqAt(label, k, 
 func KnownOutcome(id string) {}
 func KnownRace(id string)    {}
 func KnownWrite(id string)   {}
+
+// Possible is a satisfiability obligation: some input must make c true.
+// Natively it records whether c was ever observed true (see TestReplay, kind "never").
+var Possibles = map[string]bool{}
+
+func Possible(label string, c bool) {
+	mu.Lock()
+	Possibles[label] = Possibles[label] || c
+	mu.Unlock()
+}
+
+func PossibleAt(label string, k int, c bool) { Possible(fmt.Sprintf("%s[%d]", label, k), c) }
 
 func Reach(label string) {
 	mu.Lock()
